@@ -628,13 +628,20 @@ func TestZZReplay(t *testing.T) {
 	ovj, _ := json.Marshal(map[string]any{"Replace": repl})
 	ovf := filepath.Join(scratch, "overlay.json")
 	os.WriteFile(ovf, ovj, 0o644)
-	cmd := exec.Command("go", "test", "-vet=off", "-count=1", "-overlay", ovf, "-run", "^TestZZReplay$", "-v", doc.Pkg)
+	gargs := []string{"test", "-vet=off", "-count=1", "-overlay", ovf, "-run", "^TestZZReplay$", "-v"}
+	if doc.Kind == "race" {
+		gargs = append(gargs, "-race")
+	}
+	gargs = append(gargs, doc.Pkg)
+	cmd := exec.Command("go", gargs...)
 	cmd.Dir = repo
 	cmd.Env = append(os.Environ(), "GOFLAGS=-mod=mod", "GOPROXY=off", "GOSUMDB=off", "GOTOOLCHAIN=local", "ZZVRF_REPLAY="+file)
 	out, _ := cmd.CombinedOutput()
 	s := string(out)
 	reproduced := false
-	if doc.Kind == "panic" {
+	if doc.Kind == "race" {
+		reproduced = strings.Contains(s, "WARNING: DATA RACE")
+	} else if doc.Kind == "panic" {
 		reproduced = strings.Contains(s, "ZZVRF-PANIC")
 	} else {
 		reproduced = strings.Contains(s, "ZZVRF-FAILED "+doc.Assert)
